@@ -232,8 +232,8 @@ def shrink_candidates(doc):
         c["world"]["linked"] = []
         yield "drop-linked", c
     for k in list(d["cfg"]):
-        if k in ("family", "obs_noise", "only_edges"):
-            continue
+        if k in ("family", "obs_noise", "only_edges", "avoid_goingback", "non_emitting_states"):
+            continue        # dropping these would silently switch the repository's default (on) back in
         c = copy.deepcopy(d)
         del c["cfg"][k]
         yield "drop-cfg", c
